@@ -107,34 +107,37 @@ theorem render_guard_sound_partial :
 /-! ## `{{ X }}` against `{% var x = X %}{{ x }}` -/
 
 /-- **Clause 1 for macros, full strength, for the code as it is**: showing a macro call gives what
-assigning it to a variable and showing the variable gives — for every environment, fuel, renderer of
-other files, escaper with `EscFacts`, and whatever the render guard is. -/
+assigning it to a variable and showing the variable gives — for every environment, arguments, fuel,
+renderer of other files, package scopes, escaper with `EscFacts`, and whatever the render guard is. -/
 theorem macro_show_eq_var {E : Engine} {esc : Format → Ctx → Bytes → Bytes}
     (hE : E.esc = liftEsc esc) (hf : EscFacts esc E.conv) (hg : E.macroGuard = genMacroGuard)
-    (R : Nat → Except Err (Format × Bytes)) (k : Nat) (env : Env) (ctx : Ctx) (m : Nat) :
-    evalAtom E R k env (.call ctx m false) = evalAtom E R k env (.call ctx m true) := by
+    (R : Nat → Except Err (Format × Bytes)) (S : Nat → Except Err Env) (k : Nat) (env : Env)
+    (args : List (Format × Bytes)) (ctx : Ctx) (m : Nat) (cargs : List Bytes) :
+    evalAtom E R S k env args (.call ctx m false cargs) = evalAtom E R S k env args (.call ctx m true cargs) := by
   cases k with
   | zero => rfl
   | succ n =>
-    simp only [evalAtom]
+    rw [evalAtom_call_eq, evalAtom_call_eq]
     cases lookup env m with
     | none => rfl
     | some mv =>
-      obtain ⟨f, body, env'⟩ := mv
       simp only
-      cases mapE (evalAtom E R n env') body with
-      | error e => rfl
-      | ok content =>
-        simp only
-        rw [showSite_generic_of_sound hE hf (by rw [hg]; exact macro_guard_sound f ctx),
-          showSite_generic_of_sound hE hf (f := f) (ctx := ctx) (guard := E.macroGuard f ctx)
-            (by rw [hg]; exact macro_guard_sound f ctx)]
+      split
+      · rfl
+      · cases bodyEval E R S n mv cargs with
+        | error e => rfl
+        | ok content =>
+          simp only
+          rw [showSite_generic_of_sound hE hf (by rw [hg]; exact macro_guard_sound mv.fmt ctx),
+            showSite_generic_of_sound hE hf (f := mv.fmt) (ctx := ctx) (guard := E.macroGuard mv.fmt ctx)
+              (by rw [hg]; exact macro_guard_sound mv.fmt ctx)]
 
 /-- Clause 1 for `render` under a sound guard. -/
 theorem render_show_eq_var_of_sound {E : Engine} {esc : Format → Ctx → Bytes → Bytes}
     (hE : E.esc = liftEsc esc) (hf : EscFacts esc E.conv) (hg : GuardSound E.renderGuard)
-    (R : Nat → Except Err (Format × Bytes)) (k : Nat) (env : Env) (ctx : Ctx) (p : Nat) :
-    evalAtom E R k env (.render ctx p false) = evalAtom E R k env (.render ctx p true) := by
+    (R : Nat → Except Err (Format × Bytes)) (S : Nat → Except Err Env) (k : Nat) (env : Env)
+    (args : List (Format × Bytes)) (ctx : Ctx) (p : Nat) :
+    evalAtom E R S k env args (.render ctx p false) = evalAtom E R S k env args (.render ctx p true) := by
   cases k <;>
   · simp only [evalAtom]
     cases R p with
@@ -148,9 +151,10 @@ theorem render_show_eq_var_of_sound {E : Engine} {esc : Format → Ctx → Bytes
 /-- Clause 1 for `render`, full statement over the regenerated guard. -/
 def RenderShowEqVar : Prop :=
   ∀ (esc : Format → Ctx → Bytes → Bytes) (conv : Bytes → Bytes), EscFacts esc conv →
-  ∀ (R : Nat → Except Err (Format × Bytes)) (k : Nat) (env : Env) (ctx : Ctx) (p : Nat),
-    evalAtom (genEngine conv (liftEsc esc)) R k env (.render ctx p false)
-      = evalAtom (genEngine conv (liftEsc esc)) R k env (.render ctx p true)
+  ∀ (R : Nat → Except Err (Format × Bytes)) (S : Nat → Except Err Env) (k : Nat) (env : Env)
+    (args : List (Format × Bytes)) (ctx : Ctx) (p : Nat),
+    evalAtom (genEngine conv (liftEsc esc)) R S k env args (.render ctx p false)
+      = evalAtom (genEngine conv (liftEsc esc)) R S k env args (.render ctx p true)
 
 /-- **Clause 1 for `render`, as far as it holds** (`…_partial`): for the code as it is,
 `{{ render "p" }}` and the variable form agree whenever the format of `p` is `compatible` with the
@@ -158,14 +162,15 @@ context (whatever the guard); the unrestricted statement holds iff the branch is
 refuted today by a text partial containing `<` (byte 60) shown in HTML. -/
 theorem render_show_eq_var_partial :
     (∀ (esc : Format → Ctx → Bytes → Bytes) (conv : Bytes → Bytes), EscFacts esc conv →
-      ∀ (R : Nat → Except Err (Format × Bytes)) (k : Nat) (env : Env) (ctx : Ctx) (p : Nat)
+      ∀ (R : Nat → Except Err (Format × Bytes)) (S : Nat → Except Err Env) (k : Nat) (env : Env)
+        (args : List (Format × Bytes)) (ctx : Ctx) (p : Nat)
         (f : Format) (content : Bytes), R p = .ok (f, content) → compatible f ctx = true →
-        evalAtom (genEngine conv (liftEsc esc)) R k env (.render ctx p false)
-          = evalAtom (genEngine conv (liftEsc esc)) R k env (.render ctx p true)) ∧
+        evalAtom (genEngine conv (liftEsc esc)) R S k env args (.render ctx p false)
+          = evalAtom (genEngine conv (liftEsc esc)) R S k env args (.render ctx p true)) ∧
     ((ShowFastPath.renderGuarded = false ∧ ¬ RenderShowEqVar) ∨
      (ShowFastPath.renderGuarded = true ∧ RenderShowEqVar)) := by
   constructor
-  · intro esc conv hf R k env ctx p f content hR hc
+  · intro esc conv hf R S k env args ctx p f content hR hc
     have hE : (genEngine conv (liftEsc esc)).esc = liftEsc esc := rfl
     cases k <;>
     · simp only [evalAtom, hR]
@@ -176,15 +181,15 @@ theorem render_show_eq_var_partial :
     | (left
        refine ⟨by decide, ?_⟩
        intro h
-       have := h toyEsc id toyEsc_facts (fun _ => .ok (.text, [60])) 0 [] .html 0
+       have := h toyEsc id toyEsc_facts (fun _ => .ok (.text, [60])) (fun _ => .ok []) 0 [] [] .html 0
        simp [evalAtom, genEngine, showSite, genRenderGuard, ShowFastPath.renderGuard, liftEsc, fast,
          choice, toyEsc, compatible, Format.code, Ctx.code, Format.ctx] at this)
     | (right
        refine ⟨by decide, ?_⟩
-       intro esc conv hf R k env ctx p
+       intro esc conv hf R S k env args ctx p
        have hs : GuardSound genRenderGuard := by
          intro f c; cases f <;> cases c <;> decide
-       exact render_show_eq_var_of_sound (E := genEngine conv (liftEsc esc)) rfl hf hs R k env ctx p)
+       exact render_show_eq_var_of_sound (E := genEngine conv (liftEsc esc)) rfl hf hs R S k env args ctx p)
 
 /-! ## whole file sets -/
 
@@ -202,9 +207,10 @@ the top-level context of `p`'s format, what is written is exactly the output of 
 own — whatever the guards. -/
 theorem render_eq_standalone {E : Engine} {esc : Format → Ctx → Bytes → Bytes}
     (hE : E.esc = liftEsc esc) (hf : EscFacts esc E.conv)
-    (R : Nat → Except Err (Format × Bytes)) (k : Nat) (env : Env) (p : Nat) (viaVar : Bool)
+    (R : Nat → Except Err (Format × Bytes)) (S : Nat → Except Err Env) (k : Nat) (env : Env)
+    (args : List (Format × Bytes)) (p : Nat) (viaVar : Bool)
     (f : Format) (content : Bytes) (hR : R p = .ok (f, content)) :
-    evalAtom E R k env (.render f.ctx p viaVar) = .ok content := by
+    evalAtom E R S k env args (.render f.ctx p viaVar) = .ok content := by
   have hc : compatible f f.ctx = true := by cases f <;> rfl
   cases k <;>
   · simp only [evalAtom, hR]
@@ -214,10 +220,11 @@ theorem render_eq_standalone {E : Engine} {esc : Format → Ctx → Bytes → By
 /-- the same inside a file set, with any fuel that is enough for `p` on its own -/
 theorem render_eq_standalone_file {E : Engine} {esc : Format → Ctx → Bytes → Bytes}
     (hE : E.esc = liftEsc esc) (hf : EscFacts esc E.conv) (files : List File)
-    (n n' k : Nat) (hn : n ≤ n') (env : Env) (p : Nat) (viaVar : Bool) (f : Format) (content : Bytes)
+    (n n' k : Nat) (hn : n ≤ n') (S : Nat → Except Err Env) (env : Env) (args : List (Format × Bytes))
+    (p : Nat) (viaVar : Bool) (f : Format) (content : Bytes)
     (hp : runFile E files n false p = .ok (f, content)) :
-    evalAtom E (fun q => runFile E files n' false q) k env (.render f.ctx p viaVar) = .ok content :=
-  render_eq_standalone hE hf _ k env p viaVar f content
+    evalAtom E (fun q => runFile E files n' false q) S k env args (.render f.ctx p viaVar) = .ok content :=
+  render_eq_standalone hE hf _ S k env args p viaVar f content
     (runFile_mono_le E files hn false p (f, content) hp)
 
 /-- **fuel sufficiency**: two successful runs of the same file agree, whatever fuel each had -/
@@ -230,57 +237,110 @@ theorem runFile_fuel_irrelevant (E : Engine) (files : List File) (n n' : Nat) (m
   · have := runFile_mono_le E files hle main p r' h'
     rw [h] at this; cases this; rfl
 
-/-- **import = declaration in the importing file** (`…_partial`: for an imported file that imports
-nothing itself; a macro without result format keeps the format of the file it comes from — that is
-why `inlineDecls` writes the format out). For any item lists around the import, any renderer `R` of
-other files and importer `X` consistent with the imported file's items. Not covered: α-renaming
-(name clashes are build errors in the engine), forward references inside the imported file. -/
-theorem import_eq_inline_partial (E : Engine) (R : Nat → Except Err (Format × Bytes))
-    (X X' : Nat → Except Err Env) (n : Nat) (fmt : Format) (q : Nat) (fq : File) (r : ISt)
-    (hX : X q = .ok r.exp)
-    (hfold : foldE (exportStep X' fq.format) ⟨[], []⟩ fq.items = .ok r)
-    (hfree : fq.importFree = true) (pre post : List Item) (out : Bytes)
-    (h : runItems E R X n fmt (pre ++ .import_ q :: post) = .ok out) :
-    runItems E R X n fmt (pre ++ inlineDecls fq ++ post) = .ok out :=
-  runItems_import_inline E R X X' n fmt q fq r hX hfold hfree pre post out h
+/-- fuel sufficiency for the import DAG: the pass over an imported file (its package scope and its
+exports, through transitive and diamond imports) does not depend on the fuel that was enough -/
+theorem passOf_fuel_irrelevant (files : List File) (n n' q : Nat) (st st' : ISt)
+    (h : passOf files n q = .ok st) (h' : passOf files n' q = .ok st') : st = st' := by
+  have mono : ∀ a b, a ≤ b → ∀ s, passOf files a q = .ok s → passOf files b q = .ok s := by
+    intro a b hab
+    induction hab with
+    | refl => exact fun s hs => hs
+    | step _ ih => exact fun s hs => passOf_mono files _ q s (ih s hs)
+  rcases Nat.le_total n n' with hle | hle
+  · have := mono n n' hle st h
+    rw [h'] at this; cases this; rfl
+  · have := mono n' n hle st' h'
+    rw [h] at this; cases this; rfl
 
-/-- **extends = the layout with the child's macros** (`…_partial`: for a child that imports
-nothing): a successful run of a file that extends `l` has the layout's format and is the run of
-`child's declarations ++ layout's items` in the same file set. In particular nothing of the
-child's top-level text is evaluated. -/
-theorem extends_eq_layout_with_child_macros_partial (E : Engine) (files : List File) (n p l : Nat)
-    (child lay : File) (rest : List Item) (r : Format × Bytes)
+/-- **import = the imported file's items in the importing file**: replacing `import q` by `q`'s
+imports and declarations (result formats written out: a macro without one keeps the format of the
+file it comes from) preserves every successful run — for any item lists around the import, any
+renderer `R`, package scopes `S` and importer `X` consistent with the pass `r` over `q`; `q` may
+import other files itself (transitively, diamonds included). Hypotheses that the statement needs
+and the engine enforces or makes unavoidable: `q` has no forward references (`hNoFwd`; the
+importing file is sequentially scoped, so a forward reference could not be written there) and there
+are no name clashes (`hOwn`, `hHidden`; the engine reports a redeclaration at build time). -/
+theorem import_eq_inline (E : Engine) (R : Nat → Except Err (Format × Bytes))
+    (S X X' : Nat → Except Err Env) (hXX : OkLe X' X) (n : Nat) (fmt : Format) (q : Nat) (fq : File)
+    (r : ISt) (hX : X q = .ok r.exp) (hS : S q = .ok r.loc)
+    (hfold : foldE (passStep X' q fq.format) ⟨[], []⟩ fq.items = .ok r)
+    (hNoFwd : NoFwd X' q fq.format r.loc ⟨[], []⟩ fq.items)
+    (hOwn : ∀ m v, lookup r.exp m = some v → lookup r.loc m = some v)
+    (pre post : List Item)
+    (hHidden : ∀ s1, foldE (stepItem E R S X n fmt) ⟨[], []⟩ pre = .ok s1 →
+      ∀ m, lookup r.exp m = none → lookup r.loc m ≠ none → lookup s1.env m = none)
+    (out : Bytes)
+    (h : runItems E R S X n fmt (pre ++ .import_ q :: post) = .ok out) :
+    runItems E R S X n fmt (pre ++ inlineDecls fq ++ post) = .ok out :=
+  runItems_import_inline E R S X X' hXX n fmt q fq r hX hS hfold hNoFwd hOwn pre post hHidden out h
+
+/-- `hOwn` holds whenever the imports of the file come before its declarations -/
+theorem own_of_imports_first (X' : Nat → Except Err Env) (q : Nat) (fq : File) (r : ISt)
+    (hif : importsFirst false fq.items = true)
+    (hfold : foldE (passStep X' q fq.format) ⟨[], []⟩ fq.items = .ok r) :
+    ∀ m v, lookup r.exp m = some v → lookup r.loc m = some v :=
+  own_of_importsFirst X' q fq.format fq.items false ⟨[], []⟩ r hif (fun _ => rfl)
+    (fun m v h => by simp [lookup] at h) hfold
+
+/-- **extends = the layout with the child's imports and macros**: a successful run of a file that
+extends `l` has the layout's format and is the run of `child's imports and declarations ++ layout's
+items` in the same file set; the child may import other files. In particular nothing of the child's
+top-level text is evaluated. Hypotheses: the child has no forward references and none of its macros
+is shadowed by one of its imports (`own_of_imports_first`). -/
+theorem extends_eq_layout_with_child_macros (E : Engine) (files : List File) (n p l : Nat)
+    (child lay : File) (rest : List Item) (r : Format × Bytes) (st : ISt)
     (hc : files[p]? = some child) (hi : child.items = .extends_ l :: rest)
-    (hl : files[l]? = some lay) (hfree : child.importFree = true)
-    (h : runFile E files (n+1) true p = .ok r) :
+    (hl : files[l]? = some lay)
+    (hpass : passOf files (n+1) p = .ok st)
+    (hNoFwd : NoFwd (exportsOf files n) p child.format st.loc ⟨[], []⟩ child.items)
+    (hOwn : ∀ m v, lookup st.exp m = some v → lookup st.loc m = some v)
+    (h : runFile E files (n+2) true p = .ok r) :
     r.1 = lay.format ∧
-    runItems E (fun q => runFile E files n false q) (exportsOf files n) n lay.format
-      (inlineDecls child ++ lay.items) = .ok r.2 :=
-  runFile_extends_substituted E files n p l child lay rest r hc hi hl hfree h
+    runItems E (fun q => runFile E files (n+1) false q) (scopeOf files (n+1)) (exportsOf files (n+1)) (n+1)
+      lay.format (inlineDecls child ++ lay.items) = .ok r.2 :=
+  runFile_extends_substituted E files n p l child lay rest r st hc hi hl hpass hNoFwd hOwn h
 
 /-! ## non-vacuity: a concrete file set on which the hypotheses hold and every construct is used -/
 
-/-- files: 0 child.html (extends 1, declares macro 7 with text format and macro 8),
-1 layout.html (calls 7 in HTML, calls 8, renders 2 and 3), 2 part.html, 3 part.txt -/
+/-- files: 0 child.html (extends 1, imports 4, declares macro 7 (text format, one string parameter)
+and macro 8 which calls 7 and the imported 9), 1 layout.html (calls 7 in HTML, calls 8, renders 2
+and 3), 2 part.html, 3 part.txt, 4 lib.txt (imports 5; macro 9 calls the later macro 10 — a forward
+reference — and 11 of file 5), 5 lib2.txt -/
 def demoFiles : List File :=
-  [ ⟨.html, [.extends_ 1, .atom (.text [32]), .macroDecl 7 (some .text) [.text [60]],
-             .macroDecl 8 none [.text [98], .call .html 7 false]]⟩,
-    ⟨.html, [.atom (.text [91]), .atom (.call .html 7 false), .atom (.call .html 8 true),
+  [ ⟨.html, [.extends_ 1, .import_ 4, .atom (.text [32]),
+             .macroDecl 7 (some .text) [.text] [.text [60], .showParam .text 0],
+             .macroDecl 8 none [] [.text [98], .call .html 7 false [[38]], .call .html 9 true []]]⟩,
+    ⟨.html, [.atom (.text [91]), .atom (.call .html 7 false [[39]]), .atom (.call .html 8 true []),
              .atom (.render .html 2 false), .atom (.render .html 3 true), .atom (.text [93])]⟩,
     ⟨.html, [.atom (.text [38])]⟩,
-    ⟨.text, [.atom (.text [62])]⟩ ]
+    ⟨.text, [.atom (.text [62])]⟩,
+    ⟨.text, [.import_ 5, .macroDecl 9 none [] [.call .text 10 false [], .call .text 11 false []],
+             .macroDecl 10 none [] [.text [120]]]⟩,
+    ⟨.text, [.macroDecl 11 none [] [.text [121]]]⟩ ]
 
 def demoEngine : Engine := genEngine id (liftEsc toyEsc)
 
-example : runFile demoEngine demoFiles 4 true 0 = .ok (.html, [91, 0, 60, 98, 0, 60, 38, 0, 62, 93]) := by
-  rfl
-example : (demoFiles[0]?).map File.importFree = some true := by decide
-example : runItems demoEngine (fun q => runFile demoEngine demoFiles 3 false q) (exportsOf demoFiles 3) 3 .html
-    (inlineDecls ⟨.html, [.extends_ 1, .atom (.text [32]), .macroDecl 7 (some .text) [.text [60]],
-             .macroDecl 8 none [.text [98], .call .html 7 false]]⟩ ++
-      [.atom (.text [91]), .atom (.call .html 7 false), .atom (.call .html 8 true),
+def demoOut : Bytes := [91, 0, 60, 39, 98, 0, 60, 38, 0, 120, 121, 38, 0, 62, 93]
+
+example : runFile demoEngine demoFiles 5 true 0 = .ok (.html, demoOut) := by rfl
+/-- the child (file 0) satisfies the hypotheses of `extends_eq_layout_with_child_macros` -/
+example : ∃ st, passOf demoFiles 4 0 = .ok st ∧
+    NoFwd (exportsOf demoFiles 3) 0 .html st.loc ⟨[], []⟩ [.extends_ 1, .import_ 4, .atom (.text [32]),
+             .macroDecl 7 (some .text) [.text] [.text [60], .showParam .text 0],
+             .macroDecl 8 none [] [.text [98], .call .html 7 false [[38]], .call .html 9 true []]] ∧
+    importsFirst false [.extends_ 1, .import_ 4, .atom (.text [32]),
+             .macroDecl 7 (some .text) [.text] [.text [60], .showParam .text 0],
+             .macroDecl 8 none [] [.text [98], .call .html 7 false [[38]], .call .html 9 true []]] = true := by
+  refine ⟨_, rfl, ?_, rfl⟩
+  simp [NoFwd, passStep, exportsOf, expOf, passOf, demoFiles, foldE, lookup, Atom.callee]
+example : runItems demoEngine (fun q => runFile demoEngine demoFiles 4 false q) (scopeOf demoFiles 4)
+    (exportsOf demoFiles 4) 4 .html
+    (inlineDecls ⟨.html, [.extends_ 1, .import_ 4, .atom (.text [32]),
+             .macroDecl 7 (some .text) [.text] [.text [60], .showParam .text 0],
+             .macroDecl 8 none [] [.text [98], .call .html 7 false [[38]], .call .html 9 true []]]⟩ ++
+      [.atom (.text [91]), .atom (.call .html 7 false [[39]]), .atom (.call .html 8 true []),
              .atom (.render .html 2 false), .atom (.render .html 3 true), .atom (.text [93])])
-    = .ok [91, 0, 60, 98, 0, 60, 38, 0, 62, 93] := by
+    = .ok demoOut := by
   rfl
 
 end ScriggoV.Compose
